@@ -73,9 +73,10 @@ Definition hact_eqb (a b : hact) : bool :=
 
 (* ------------------------------------------------------------------ quirks *)
 Record cquirks := {
-  q_value_error_escapes : bool    (* _safe_check_rule re-raises ValueError (and its subclasses) before the catch-all *)
+  q_value_error_escapes : bool;   (* _safe_check_rule re-raises ValueError (and its subclasses) before the catch-all *)
+  q_finalize_unguarded : bool     (* rule.finalize() is called outside any try: a failing finalize() aborts the run *)
 }.
-Definition ideal : cquirks := {| q_value_error_escapes := false |}.
+Definition ideal : cquirks := {| q_value_error_escapes := false; q_finalize_unguarded := false |}.
 
 (* table-shaped deviation: the table of the code, or the same table without its re-raising clauses *)
 Definition check_handlers (q : cquirks) : list handler :=
@@ -85,6 +86,9 @@ Definition check_handlers (q : cquirks) : list handler :=
 (* is the finalize loop of the named orchestrator method inside a try?  (Gen table; absent = no) *)
 Definition guard_of (fn : string) : bool :=
   match find (fun g => String.eqb fn (fst g)) finalize_guards with Some g => snd g | None => false end.
+(* faithful: what the source says about the named method; demanded: a failing finalize() costs that rule's cross-file findings only *)
+Definition fin_guard (q : cquirks) (fn : string) : bool :=
+  if q_finalize_unguarded q then guard_of fn else true.
 
 (* ------------------------------------------------------------------ rules as partial functions *)
 Inductive outcome (A : Type) := Ok (a : A) | Fail (e : exc).
@@ -187,7 +191,7 @@ Definition run (q : cquirks) (rules : list rule) (files : list string) : run_res
   match lint_all q rules files with
   | (Fail e, l) => (Crashed e, l)
   | (Ok cs, l) =>
-      match finalize_all (guard_of "lint_files") rules (fun r => store_of r files) with
+      match finalize_all (fin_guard q "lint_files") rules (fun r => store_of r files) with
       | (Fail e, l') => (Crashed e, l ++ l')
       | (Ok fs, l') => (Completed cs fs, l ++ l')
       end
@@ -238,7 +242,7 @@ Definition run_par (q : cquirks) (rules : list rule) (files : list string) : run
       match (if par_parent_collects then lint_all q (filter r_cross rules) files else (Ok [], [])) with
       | (Fail e, l1) => (Crashed e, l ++ l1)
       | (Ok _, l1) =>
-          match finalize_all (guard_of "_finalize_rules") rules (fun r => par_store r files) with
+          match finalize_all (fin_guard q "_finalize_rules") rules (fun r => par_store r files) with
           | (Fail e, l2) => (Crashed e, l ++ l1 ++ l2)
           | (Ok fs, l2) => (Completed cs fs, l ++ l1 ++ l2)
           end
